@@ -13,6 +13,7 @@ import (
 
 	"github.com/tinode/chat/server/store/types"
 	kit "github.com/tinode/chat/server/zzverifkit"
+	mem "github.com/tinode/chat/server/zzverifmem"
 	"pgregory.net/rapid"
 )
 
@@ -46,11 +47,25 @@ func c20wGen(rt *rapid.T) wProg {
 type c20wObs struct {
 	wNopObs
 	frames, reloads int
+	preMsgs         int
 }
+
+func (o *c20wObs) Before(w *wWorld, op *wOp) { o.preMsgs = len(mem.A.Snapshot().Msgs) }
 
 func (o *c20wObs) After(w *wWorld, st *wStep) *kit.Viol {
 	if st.Op.K == "reload" && st.Reloaded || st.Op.K == "restart" {
 		o.reloads++
+	}
+	// usrXXX names the P2P topic of the user the request is executed as (also on behalf of another
+	// user) and XXX: an accepted publish is stored in exactly that topic
+	if st.Op.K == "pub" && !st.Skipped && st.code() == 202 && strings.HasPrefix(st.Name, "usr") && st.User >= 0 {
+		want := w.users[st.User].uid.P2PName(types.ParseUserId(st.Name))
+		msgs := mem.A.Snapshot().Msgs
+		if len(msgs) == o.preMsgs+1 {
+			if got := msgs[len(msgs)-1].Topic; got != want {
+				return kit.V("p2p-name-resolved-for-wrong-user", "publish to %s executed as user %d (session of user %d) was stored in %s, the P2P topic of these two users is %s", st.Name, st.User, st.Login, got, want)
+			}
+		}
 	}
 	for sess, frames := range st.Frames {
 		if sess >= len(w.sess) || w.sess[sess] == nil {
